@@ -30,7 +30,7 @@ TLS_TESTS = ('_ssl_context_container', '_ssl_context', 'ssl_context_container', 
 
 def _tls_fact(facts, polarity_true):
     """A dominating fact that says the TLS context is present (True) / absent (False)."""
-    for txt, pol in facts:
+    for txt, pol in list(facts) + list(getattr(facts, 'resolved', [])):   # as written, and with boolean locals written out
         base = txt.replace(' is None', '').replace('self.', '')
         if base in TLS_TESTS:
             present = (pol is False) if txt.endswith(' is None') else (pol is True)
@@ -207,7 +207,12 @@ def run(ctx):  # noqa: C901, PLR0912, PLR0915
     ok = any(call_name(c) == 'SplitResult' and c.args and unparse(c.args[0]) == 'self._urlschema' for c in calls_in(ss.node))
     ctx.ob('C19.R1', 'base urls', ok, 'the provider base urls (hosted services, subscription manager) use that scheme', fi=ss)
     sr = repo.func('sdc11073.provider.subscriptionmgr_base.SubscriptionsManagerBase._mk_subscribe_response_message')
-    ctx.ob('C19.R1', 'subscription manager address', "f'{base_urls[0].scheme}://{base_urls[0].netloc}/" in xsrc(sr),
+    gsr = cfg_of(sr)
+    import re as _re
+    addr_ok = any(n.kind == 'stmt' and isinstance(n.stmt, ast.Assign) and isinstance(n.stmt.value, ast.JoinedStr) and
+                  _re.search(r"\{\$(\d+)\[0\]\.scheme\}://\{\$\1\[0\]\.netloc\}/", gsr.symbolic_text(n, n.stmt.value))
+                  for n in gsr.real_nodes())
+    ctx.ob('C19.R1', 'subscription manager address', addr_ok,
            'the subscription manager address in SubscribeResponse is built from the provider base url', fi=sr)
     hs = repo.module('sdc11073.provider.dpwshostedservice')
     lits = [n for n in ast.walk(hs.tree) if isinstance(n, ast.JoinedStr) and n.values and isinstance(n.values[0], ast.Constant)
@@ -358,7 +363,17 @@ def run(ctx):  # noqa: C901, PLR0912, PLR0915
     # ------------------------------------------------------------------ R5
     mc = repo.func('sdc11073.certloader.mk_ssl_contexts')
     g = cfg_of(mc)
-    for ctxname in ('client_ssl_context', 'server_ssl_context'):
+    # the two context objects are found by how they are made (PROTOCOL_TLS_CLIENT / PROTOCOL_TLS_SERVER), not by their names
+    made = {}
+    for n in g.real_nodes():
+        if n.kind == 'stmt' and isinstance(n.stmt, ast.Assign) and isinstance(n.stmt.targets[0], ast.Name) and \
+                isinstance(n.stmt.value, ast.Call) and unparse(n.stmt.value.func) == 'ssl.SSLContext' and n.stmt.value.args:
+            proto = unparse(n.stmt.value.args[0])
+            if proto in ('ssl.PROTOCOL_TLS_CLIENT', 'ssl.PROTOCOL_TLS_SERVER'):
+                made['client' if proto.endswith('CLIENT') else 'server'] = n.stmt.targets[0].id
+    if set(made) != {'client', 'server'}:
+        raise AnalysisError(f'C19.R5: client and server SSLContext constructions not found in mk_ssl_contexts ({made})')
+    for role, ctxname in sorted(made.items()):
         vm = [n for n in g.real_nodes() if n.kind == 'stmt' and isinstance(n.stmt, ast.Assign) and
               unparse(n.stmt.targets[0]) == f'{ctxname}.verify_mode']
         lv = [n for n, c in g.nodes_calling('load_verify_locations') if unparse(c.func.value) == ctxname
@@ -366,11 +381,12 @@ def run(ctx):  # noqa: C901, PLR0912, PLR0915
         ok = len(vm) == 1 and unparse(vm[0].stmt.value) == 'ssl.CERT_REQUIRED' and len(lv) == 1 and \
             ('ca_file', True) in g.facts_at(vm[0]) and ('ca_file', True) in g.facts_at(lv[0]) and \
             all(t == 'ca_file' or t.startswith('cyphers') or 'exists()' in t for t, _p in g.facts_at(vm[0]))
-        ctx.ob('C19.R5', f'{ctxname}', ok,
-               f'{ctxname}: with a CA file verify_mode is CERT_REQUIRED and the CA is loaded for verification', fi=mc)
+        ctx.ob('C19.R5', f'{role}_ssl_context', ok,
+               f'{role} context: with a CA file verify_mode is CERT_REQUIRED and the CA is loaded for verification', fi=mc)
     ret = [n for n in walk_no_nested(mc.node) if isinstance(n, ast.Return)]
-    ok = len(ret) == 1 and unparse(ret[0].value) == \
-        'SSLContextContainer(client_context=client_ssl_context, server_context=server_ssl_context)'
+    ok = len(ret) == 1 and isinstance(ret[0].value, ast.Call) and call_name(ret[0].value) == 'SSLContextContainer' and \
+        {k.arg: unparse(k.value) for k in ret[0].value.keywords} == {'client_context': made['client'],
+                                                                      'server_context': made['server']}
     ctx.ob('C19.R5', 'container wiring', ok, 'the container returns the client context as client_context and the server '
            'context as server_context', fi=mc)
     src = xsrc(mc)
